@@ -166,6 +166,8 @@ const (
 	OpNe      Op = "<>"
 	OpLt      Op = "<"
 	OpGt      Op = ">"
+	OpGe      Op = ">="
+	OpLe      Op = "<="
 	OpIn      Op = "IN"
 	OpLike    Op = "LIKE"
 	OpIsNull  Op = "IS NULL"
@@ -253,6 +255,10 @@ func (n *Node) Eval(r Row) TV {
 		return tv(cmp(v, n.V) < 0)
 	case OpGt:
 		return tv(cmp(v, n.V) > 0)
+	case OpGe:
+		return tv(cmp(v, n.V) >= 0)
+	case OpLe:
+		return tv(cmp(v, n.V) <= 0)
 	case OpIn:
 		if len(n.Vs) == 0 {
 			return U
